@@ -115,3 +115,7 @@ Example C14_ex :
   | Crash _ _ => ([], [])
   end = ([10; 11], [4]).
 Proof. vm_compute. reflexivity. Qed.
+
+(* non-vacuity of C14_failing_send: a reachable state meeting every hypothesis, and the outcome computed on it *)
+Definition C14_failing_send_ex_hypotheses := failing_send_ex_hypotheses.
+Definition C14_failing_send_ex_outcome := failing_send_ex_outcome.
